@@ -51,7 +51,7 @@ def analyse(ctx, case, run, S):
         if not ctx.expect(ev is not None, 'C08:no-final-comparison', '%s: no final comparison' % case['name'], cfg, 'tampered_accepted'):
             continue
         ws = [s for s, napp in weight_state(run) if napp == k]
-        if not ctx.expect(len(ws) >= 1, 'C08:weight-derivation', '%s: no weight RNG whose transcript absorbed one entry per member' % case['name'], cfg, None):
+        if not ctx.expect(len(ws) >= 1, 'C08:weight-derivation', '%s: no weight RNG whose transcript absorbed one entry per member (%s)' % (case['name'], v['action']), cfg, 'weights_predictable'):
             continue
         sid = ws[-1]
         total = Lin()
@@ -84,7 +84,7 @@ def analyse(ctx, case, run, S):
             asserts, atoms = inj.query(('rng', sid), set(grp))
             S.sync_terms(run.T)
             ctx.solve(S, 'log-injective', 'response scalars of member %d -> every batch weight (%s)' % (i, v['action']), asserts, cfg=cfg,
-                      key='C08:weights-bind-responses', pred='probe_unchanged',
+                      key='C08:weights-bind-responses', pred='probe_or_weights',
                       detail={'group': grp, 'n': n, 'x': x, 'm': cfg['members'][i]['m'], 'cap': cfg['members'][i]['cap'], 'elems': list(range(x)) + [x + 3, x + 4]})
         # the u64 each member contributes comes from ITS transcript RNG, built after r1,s1,d1 were appended, external = null
         lv = LogView(run.core)
@@ -96,7 +96,7 @@ def analyse(ctx, case, run, S):
             bl = run.core['blobs'][reg['rnd_blob']] if 'rnd_blob' in reg else None
             ok = ok and e['label'] == 'proof' and bl is not None and bl['t'] == 'rnd' and bl['ctr'] == 0 \
                 and run.core['rng_states'][bl['state']]['log'] == v['logs_after'][i] and run.core['rng_states'][bl['state']]['ext'] == zero32
-        ctx.expect(ok, 'C08:weight-transcript', '%s: weight transcript is not ("proof", first output of member i\'s final transcript RNG) per member in order' % case['name'], cfg, None)
+        ctx.expect(ok, 'C08:weight-transcript', '%s: weight transcript is not ("proof", first output of member i\'s final transcript RNG) per member in order' % case['name'], cfg, 'weights_predictable')
     if len(ctx.case_samples) < 2:
         ctx.case_samples.append({'scenario': cfg, 'dag_nodes': len(run.core['nodes'])})
 
